@@ -112,7 +112,14 @@ ceil = _mathfun_real(math.ceil,
 cos_sin = _mathfun_real(lambda x: (math.cos(x), math.sin(x)),
                         lambda z: (cmath.cos(z), cmath.sin(z)))
 
-cbrt = _mathfun(lambda x: x**(1./3), lambda z: z**(1./3))
+def _cbrt(x):
+    y = x**(1./3)
+    if y:
+        # the exponent 1/3 is rounded: one Newton step removes the error
+        y -= (y*y*y - x)/(3*y*y)
+    return y
+
+cbrt = _mathfun(_cbrt, _cbrt)
 
 def nthroot(x, n):
     r = 1./n
